@@ -77,7 +77,7 @@ m = {
  },
  "engines": [
   {"name": "detsim (engine A)", "path": "sim/", "serves_properties": sorted(CLAIMED), "kind_free_text": "seeded cooperative scheduler over real OS threads (one baton), simulated locks / condvars / channels / once-cell / notify back-end, in-memory faultable Source and Read seams; one seed = one exactly repeatable run; tape replay; joint minimisation of workload, faults and schedule"},
-  {"name": "miri (engine B)", "path": "miri/", "serves_properties": [p for p in ("C07", "C13", "C16", "C17", "C18") if p in CLAIMED], "kind_free_text": "Miri's seeded scheduler (-Zmiri-seed, preemption rate) over the real atomics / once_cell, with UB, data-race and leak detection as oracle"},
+  {"name": "miri (engine B)", "path": "miri/", "serves_properties": [p for p in ("C01", "C07", "C13", "C16", "C17", "C18") if p in CLAIMED], "kind_free_text": "Miri's seeded scheduler (-Zmiri-seed, preemption rate) over the real atomics / once_cell, with UB, data-race and leak detection as oracle"},
  ],
  "checks": [],
  "notes": "./check <ID> --tier quick|thorough ; ./check <ID> --replay <file>. Exit 0 held / 1 VIOLATION / 2 harness error (never a verdict). Default VERIF_SEED=20260927.",
@@ -93,7 +93,7 @@ for p in props:
          "thorough_cmd": f"./check {i} --tier thorough",
          "evidence_file": f"/verif/evidence/{i}.json",
          "replay_cmd_template": f"./check {i} --replay {{path}}",
-         "engine": "detsim (engine A)" + (" + miri (engine B)" if i in ("C07", "C13", "C16", "C17", "C18") else ""),
+         "engine": "detsim (engine A)" + (" + miri (engine B)" if i in ("C01", "C07", "C13", "C16", "C17", "C18") else ""),
          "level_claimed": {"category": lvl, "text": text, "design_ref": ref},
          "level_note": note,
          "technique": tech,
